@@ -77,6 +77,9 @@ type Prop struct {
 	MinNontrivial int
 	// RequiredCounters must be > 0 in the aggregate, else the run is inconclusive (non-vacuity).
 	RequiredCounters []string
+	// CrashIsViolation: a worker process dying inside a case (fatal runtime error that recover()
+	// cannot intercept) is a violation of this property rather than an inconclusive run.
+	CrashIsViolation bool
 }
 
 var registry = map[string]*Prop{}
@@ -322,6 +325,12 @@ func RunParent(o RunOpts) int {
 			last := lastStarted(filepath.Join(tmp, fmt.Sprintf("log%d.txt", i)))
 			if last != "" {
 				crashed[last] = outs[i].stderr
+			}
+			if p.CrashIsViolation && last != "" {
+				cr := CaseResult{CaseID: last}
+				cr.Violate(p.ID+"/process-crash", "the worker process died while running this case: %s", firstLines(outs[i].stderr, 6))
+				all = append(all, cr)
+				continue
 			}
 			inconclusive = append(inconclusive, fmt.Sprintf("worker %d died (%v) in case %q: %s", i, outs[i].err, last, firstLines(outs[i].stderr, 12)))
 		}
